@@ -3,7 +3,7 @@
    before this file is compiled) are exactly the CPU-feature detection caches: a new writable static breaks these
    statements. *)
 From Coq Require Import NArith List Bool Lia.
-From V Require Import gen.GenGlobals Base.Res Model.Concurrency Proofs.ConcurrencyP.
+From V Require Import gen.GenGlobals gen.GenDispatch Base.Res Model.Concurrency Model.Dispatch Proofs.ConcurrencyP Proofs.DispatchP.
 Import ListNotations.
 Open Scope N_scope.
 
@@ -39,7 +39,28 @@ Theorem C18_detection_idempotent : forall (S : Type) (features : N) (p : proc S)
   insts S (fst (detect S features p)) = insts S p.
 Proof. exact detect_cache. Qed.
 
+(* The C cache (the model's premise "an operation may store the CONSTANT detected value"):
+   get_cpu_features, translated from c/blake3_dispatch.c into gen/GenDispatch.v c_dispatch_prog.
+   Whatever the CPU answers (`taken`) and whatever the local held before, every value a first call
+   stores to g_cpu_features is the complete value that call returns - no partial feature set is ever
+   published - and that value is a function of the CPU's answers only, so concurrent first callers
+   store the same value. *)
+Theorem C18_c_cache_stores_are_final : forall taken f,
+  Forall (eq (Some (snd (exec c_dispatch_prog taken f)))) (fst (exec c_dispatch_prog taken f)).
+Proof. apply stores_are_final. vm_compute. reflexivity. Qed.
+
+Theorem C18_c_cache_value_is_cpu_only : forall taken f1 f2,
+  exec c_dispatch_prog taken f1 = exec c_dispatch_prog taken f2.
+Proof. apply result_is_cpu_only. vm_compute. reflexivity. Qed.
+
+(* non-vacuity: the program does store, exactly once, and a CPU answering yes to everything yields all seven features *)
+Example C18_c_cache_nonvacuous :
+  exec c_dispatch_prog (repeat true 16) 12345 = ([Some 127], 127) /\ stores_final c_dispatch_prog = true.
+Proof. vm_compute. split; reflexivity. Qed.
+
 Print Assumptions C18_globals_c_is_detection_cache.
+Print Assumptions C18_c_cache_stores_are_final.
+Print Assumptions C18_c_cache_value_is_cpu_only.
 Print Assumptions C18_globals_rs_are_detection_caches.
 Print Assumptions C18_interleaving_projects.
 Print Assumptions C18_detection_idempotent.
